@@ -526,6 +526,15 @@ func genRun(r *hx.Rand, i int) *hx.Case {
 		}
 		ops = append(ops, hx.Op(opJ{K: "rb", Raws: raws}))
 	}
+	if r.Chance(1, 2) {
+		// a tail of LATE records (timestamps below everything before): the watermark must stay where it was, also when
+		// a further split assignment was handled in between
+		for b := 0; b < 3; b++ {
+			id++
+			t := tsJ{S: base - int64(r.Range(1, 50)), N: int32(r.Intn(1000000000))}
+			ops = append(ops, hx.Op(opJ{K: "rb", Raws: [][]evJ{{{Key: fmt.Sprintf("key-%d", r.Intn(12)), ID: id, Ts: t}}}}))
+		}
+	}
 	return &hx.Case{Name: fmt.Sprintf("run-%d", i), Params: map[string]any{"mode": "c11", "kind": "run", "nops": nops, "kgc": kgc, "bs": bs}, Ops: ops}
 }
 
@@ -671,6 +680,8 @@ type recOp struct {
 	raw    []string
 	complete int
 	twoWmOneBatch bool // a delivered batch held watermark, keyed event, watermark
+	lastW  time.Time // latest delivered watermark
+	hasW   bool
 }
 
 func (o *recOp) HandleEventBatch(ctx context.Context, batch []*workerpb.Event) error {
@@ -709,6 +720,9 @@ func (o *recOp) HandleEventBatch(ctx context.Context, batch []*workerpb.Event) e
 			s, n := int64(0), int64(-1)
 			if ts != nil {
 				s, n = ts.Seconds, int64(ts.Nanos)
+			}
+			if ts != nil {
+				o.lastW, o.hasW = ts.AsTime(), true
 			}
 			o.events = append(o.events, "SW "+coqZZ(s, n))
 			o.raw = append(o.raw, fmt.Sprintf("W%d.%09d", s, n))
@@ -919,13 +933,29 @@ func execRun(c *hx.Case, ops []opJ) (*hx.Result, error) {
 	streams := make([]string, nops)
 	var obs []any
 	nw := 0
-	snapshot := func(minW int) bool {
-		// Poll until the condition holds. It is reached on every schedule: the runner's ticker keeps broadcasting every
-		// 200 ms, a dropped tick (slow machine) only delays it. The 150 s bound is for a truly wedged runner and is
-		// reported as an execution error, never turned into an observation.
+	// What the property obliges the runner to do, and nothing else, is waited for: every keyed event is delivered, and
+	// the latest watermark each operator holds has caught up with what was forwarded (a watermark delivered after the
+	// operator's last keyed event, or one that already is >= max(forwarded) - 1 ns).  Never a COUNT of ticks: an idle
+	// runner owes nothing (it may skip ticks whose watermark would repeat).  The snapshot is a consistent cut (all
+	// locks held, the same number of watermarks everywhere, i.e. no broadcast half delivered).
+	owed := time.Time{}
+	for _, o := range ops {
+		for _, evs := range o.Raws {
+			for _, e := range evs {
+				if t := e.Ts.pb().AsTime(); t.After(owed) {
+					owed = t
+				}
+			}
+		}
+	}
+	owed = owed.Add(-time.Nanosecond)
+	started := time.Now()
+	reassigned := false
+	snapshot := func() bool {
+		// poll until true; 150 s only for a truly wedged runner (execution error, never an observation)
 		deadline := time.Now().Add(150 * time.Second)
 		for {
-			total, ok := 0, true
+			total, ok, anyW := 0, true, false
 			counts := make([]int, nops)
 			for _, rc := range order {
 				rc.mu.Lock()
@@ -938,12 +968,23 @@ func execRun(c *hx.Case, ops []opJ) (*hx.Result, error) {
 						counts[i]++
 					}
 				}
-				if len(rc.raw) == 0 || !strings.HasPrefix(rc.raw[len(rc.raw)-1], "W") || counts[i] != counts[0] || counts[i] <= minW {
+				if counts[i] != counts[0] {
 					ok = false
 				}
+				if rc.hasW {
+					anyW = true
+				}
+				if nk > 0 {
+					endsWithW := len(rc.raw) > 0 && strings.HasPrefix(rc.raw[len(rc.raw)-1], "W")
+					if !(rc.hasW && (endsWithW || !rc.lastW.Before(owed))) {
+						ok = false
+					}
+				}
+			}
+			if nk == 0 && time.Since(started) < 300*time.Millisecond {
+				ok = false // nothing is owed without records: just give the first tick a chance (detection only)
 			}
 			done := ok && total == nk
-			late := time.Now().After(deadline)
 			if done {
 				obs = nil
 				for i, rc := range order {
@@ -955,10 +996,19 @@ func execRun(c *hx.Case, ops []opJ) (*hx.Result, error) {
 			for _, rc := range order {
 				rc.mu.Unlock()
 			}
+			if anyW && !reassigned {
+				// a further split assignment on the running runner (split discovery / rebalancing) as soon as a first
+				// watermark was announced - usually while the source is still producing; the runner's watermark must not
+				// fall back.  When exactly the loop handles it only matters for detection power.
+				reassigned = true
+				if err := sr.HandleAssignSplits([]*workerpb.SourceSplit{{SplitId: "s1", SourceId: "src"}}); err == nil {
+					tags["reassign_after_watermark"] = true
+				}
+			}
 			if done {
 				return true
 			}
-			if late {
+			if time.Now().After(deadline) {
 				return false
 			}
 			time.Sleep(500 * time.Microsecond) // poll pacing
@@ -968,24 +1018,9 @@ func execRun(c *hx.Case, ops []opJ) (*hx.Result, error) {
 		sr.Stop()
 		<-done // the runner's own completion signal; no deadline (hx's hang detector covers a runner that never stops)
 	}
-	if !snapshot(0) {
+	if !snapshot() {
 		stopRunner()
-		return nil, fmt.Errorf("source runner wedged: no quiescent delivery (all keyed events, equal watermark counts, a final watermark everywhere) within 150 s")
-	}
-	{
-		// a further split assignment on the running runner (split discovery / rebalancing), then the next tick(s):
-		// the runner's watermark must not fall back
-		first := nw
-		if err := sr.HandleAssignSplits([]*workerpb.SourceSplit{{SplitId: "s1", SourceId: "src"}}); err != nil {
-			return nil, err
-		}
-		tags["reassign_after_watermark"] = true
-		// The assignment is queued for the event loop; after two more ticks one was almost surely stamped after it was
-		// handled. On correct code the assignment changes no watermark, so WHEN it is handled affects detection power only.
-		if !snapshot(first + 1) {
-			stopRunner()
-			return nil, fmt.Errorf("source runner wedged after a further split assignment: no further watermark everywhere within 150 s")
-		}
+		return nil, fmt.Errorf("source runner wedged: within 150 s not every keyed event was delivered with a watermark that caught up with them")
 	}
 	stopRunner()
 	if nw > 1 {
@@ -1033,28 +1068,22 @@ func execLoop(c *hx.Case, ops []opJ) (*hx.Result, error) {
 	ks := partitioning.NewKeySpace(kgc, nops)
 	tags := map[string]bool{fmt.Sprintf("nops_%d", nops): true, fmt.Sprintf("opbatch_%d", ob): true, fmt.Sprintf("keybatch_%d", kb): true}
 	var terms []string
-	placeholders, nw, nk, nas := 0, 0, 0, 0
-	waitSent := func(want int) error {
-		// poll until the output stage has handled everything queued; 150 s only for a truly wedged stage (exec error)
-		deadline := time.Now().Add(150 * time.Second)
-		for {
-			n, errs := loop.Sent()
-			if len(errs) > 0 {
-				return fmt.Errorf("sendOperatorEvent: %v", errs[0])
-			}
-			if n >= want {
-				return nil
-			}
-			select {
-			case err := <-errChan:
-				return fmt.Errorf("runner error: %v", err)
-			default:
-			}
-			if time.Now().After(deadline) {
-				return fmt.Errorf("output stage wedged: handled %d of %d placeholders within 150 s", n, want)
-			}
-			time.Sleep(100 * time.Microsecond)
+	nw, nk, nas := 0, 0, 0
+	// everything the loop has queued so far is fully handled by the output stage: rendezvous through a marker queued
+	// behind it (how many placeholders the loop chose to queue for the ticks is not assumed)
+	drain := func() error {
+		loop.Sync()
+		loop.FlushKeyEvents()
+		loop.Drain()
+		if _, errs := loop.Sent(); len(errs) > 0 {
+			return fmt.Errorf("sendOperatorEvent: %v", errs[0])
 		}
+		select {
+		case err := <-errChan:
+			return fmt.Errorf("runner error: %v", err)
+		default:
+		}
+		return nil
 	}
 	for _, o := range ops {
 		switch o.K {
@@ -1073,22 +1102,18 @@ func execLoop(c *hx.Case, ops []opJ) (*hx.Result, error) {
 					nk++
 				}
 				terms = append(terms, "PK "+hx.CoqList(items, "N * N * pbts"))
-				placeholders++
 			}
 			loop.Read(records)
 		case "tk":
 			loop.Tick()
 			terms = append(terms, "PW")
-			placeholders++
 			nw++
 		case "as":
 			nas++
 			if nas > 1 {
 				// everything queued so far is forwarded / stamped before the further assignment is handed over, so
 				// that what the next tick announces does not depend on the timing of the output stage
-				loop.Sync()
-				loop.FlushKeyEvents()
-				if err := waitSent(placeholders); err != nil {
+				if err := drain(); err != nil {
 					return nil, err
 				}
 			}
@@ -1103,9 +1128,7 @@ func execLoop(c *hx.Case, ops []opJ) (*hx.Result, error) {
 			return nil, fmt.Errorf("bad op %q for kind loop", o.K)
 		}
 	}
-	loop.Sync()           // the loop has queued every placeholder
-	loop.FlushKeyEvents() // resolve the partially filled key-event batch
-	if err := waitSent(placeholders); err != nil {
+	if err := drain(); err != nil { // the loop has queued everything, the key-event batch is resolved, the output stage is done
 		return nil, err
 	}
 	// two flushes: the second returns only after every operator goroutine finished delivering the first
@@ -1122,7 +1145,7 @@ func execLoop(c *hx.Case, ops []opJ) (*hx.Result, error) {
 		}
 		rc.mu.Unlock()
 	}
-	term := fmt.Sprintf("PipeC %s %s %s", hx.CoqN(uint64(nops)), hx.CoqList(terms, "pop"), hx.CoqList(streams, "list sev"))
+	term := fmt.Sprintf("LoopC %s %s %s", hx.CoqN(uint64(nops)), hx.CoqList(terms, "pop"), hx.CoqList(streams, "list sev"))
 	return &hx.Result{Term: term, Nontrivial: nw >= 2 && nk >= 1, Tags: tagList("loop", tags), Observed: obs}, nil
 }
 
